@@ -93,8 +93,9 @@ MonStep(ev, o) ==
         idone1 == IF iterStart THEN FALSE
                   ELSE IF ~top /\ (ev.e = "done" \/ (ev.e = "nsnow" /\ odone /\ Len(oc) = 0)) THEN TRUE ELSE mon.idone
         pend1 == IF ev.e \in {"done", "disable", "adisable"} \/ (top /\ ev.e = "engage") THEN FALSE
-                 ELSE IF ~top /\ mon.idone /\ ev.e \in {"ns", "engage"} THEN TRUE
-                 ELSE IF ~top /\ mon.idone /\ ev.e = "nsnow" THEN TRUE    \* (even if the nested execute() ran the default state)
+                 \* a state function (one that called done() before, or the default state's) selects a state while the
+                 \* machine is stopped: current_state names it until the next engage() / done()
+                 ELSE IF ~top /\ ev.e \in {"ns", "engage", "nsnow"} /\ hasObs /\ ~o.exec THEN TRUE
                  ELSE mon.pend
         \* once an exception has left execute() the properties no longer judge the history (MagicSM!Judged); the
         \* lock-step comparison goes on
@@ -144,21 +145,40 @@ Lockstep ==
        ELSE /\ UNCHANGED mvars /\ UNCHANGED seen
             /\ Verdict("STUCK", [v |-> "STUCK", tid |-> T.id, l |-> l, ev |-> ev])
 
-\* after a FOREIGN verdict only the monitors keep running
-MonTail ==
+\* After a FOREIGN verdict (the first disagreement concerns clauses of other properties only) the comparison goes
+\* on against the specification's own state - nothing is adopted - and the first later step at which a clause OWNED
+\* by Prop (or one of its monitors) fails is a MISMATCH: the implementation did not do what Prop requires of that
+\* history, whatever went wrong first.  When the recorded events stop fitting the specification's control state
+\* (the code called a state function the specification did not, ...) the trace ends as FOREIGN.
+Diverged ==
     LET ev == T.steps[l].in
         o  == T.steps[l].out
         m1 == MonStep(ev, o)
-    IN /\ mon' = m1 /\ UNCHANGED mvars /\ UNCHANGED seen
-       /\ IF m1.bad # "" /\ (Prop = "ALL" \/ Prop \in MonOwner(m1.bad))
-          THEN Verdict("MISMATCH", [v |-> "MISMATCH", tid |-> T.id, l |-> l, clauses |-> {m1.bad},
-                                    br |-> <<>>, exp |-> [late |-> TRUE], obs |-> o])
-          ELSE NoVerdict
+    IN
+    /\ mon' = m1 /\ UNCHANGED seen
+    /\ IF ev.e = "raised"
+       THEN /\ UNCHANGED mvars
+            /\ Verdict("MISMATCH", [v |-> "MISMATCH", tid |-> T.id, l |-> l, clauses |-> {"raised"},
+                                      br |-> <<>>, exp |-> [raised |-> FALSE], obs |-> o])
+       ELSE IF EvEnabled(ev)
+       THEN /\ EvNext(ev)
+            /\ LET d == IF "cb" \in DOMAIN o THEN Diffs(Obs', o, eng') ELSE {}
+                   b == ToSet(br')
+                   mine == {c \in d : Prop = "ALL" \/ Prop \in Owner(c, b)}
+               IN IF mine # {}
+                  THEN Verdict("MISMATCH", [v |-> "MISMATCH", tid |-> T.id, l |-> l, clauses |-> mine, br |-> br',
+                                            exp |-> Obs', obs |-> o, after_foreign |-> TRUE])
+                  ELSE IF m1.bad # "" /\ (Prop = "ALL" \/ Prop \in MonOwner(m1.bad))
+                  THEN Verdict("MISMATCH", [v |-> "MISMATCH", tid |-> T.id, l |-> l, clauses |-> {m1.bad},
+                                            br |-> br', exp |-> Obs', obs |-> o, after_foreign |-> TRUE])
+                  ELSE NoVerdict
+       ELSE /\ UNCHANGED mvars
+            /\ Verdict("FOREIGNEND", [v |-> "FOREIGN", tid |-> T.id, l |-> l, clauses |-> {"control"}, br |-> <<>>])
 
 TStep ==
     /\ l <= Len(T.steps)
     /\ \/ vkind = "" /\ Lockstep
-       \/ vkind = "FOREIGN" /\ MonTail
+       \/ vkind = "FOREIGN" /\ Diverged
     /\ l' = l + 1 /\ UNCHANGED tid
 
 TSpec == TInit /\ [][TStep]_tvars
